@@ -453,9 +453,6 @@ fn classes(g: &Glyph, indent_count: usize) -> Vec<&'static str> {
             c.push("F3");
         }
     }
-    if !(g.width.is_normal() || g.height.is_normal()) && (g.width != 0.0 || g.height != 0.0) {
-        c.push("advance-subnormal");
-    }
     if g.contours.iter().any(|c| c.points.is_empty()) {
         c.push("empty-contour");
     }
